@@ -284,7 +284,10 @@ def _comp(t, T):
     if not vec and t.get("wtype"):
         warg = getattr(np, t["wtype"])(lam)             # a numpy scalar (np.int64 from arange, np.float32 from a file)
     handed = list(mats)
-    calc = nsf.neutron_composite_sld(handed, wavelength=warg)
+    if t.get("omit_wavelength"):            # the documented default: wavelength = 1.798 Ang, a scalar
+        calc = nsf.neutron_composite_sld(handed)
+    else:
+        calc = nsf.neutron_composite_sld(handed, wavelength=warg)
     if t.get("reuse_args"):
         # the caller goes on using its list and its wavelength buffer for something else before the first call
         handed.reverse()
